@@ -287,7 +287,7 @@ Proof.
   intros w. induction n as [|k IH]; intros len acc; simpl lex_go.
   - simpl. split.
     + split; [intros _; left; reflexivity | reflexivity].
-    + intros _. rewrite app_nil_r. reflexivity.
+    + intros _. rewrite app_nil_r. symmetry. apply rev_alt.
   - destruct (max_value w <? len) eqn:E.
     + apply N.ltb_lt in E. cbn [fst]. split; [|discriminate]. split; [discriminate|].
       intros [H|H]; [discriminate|]. rewrite Nat2N.inj_succ in H.
